@@ -1,7 +1,7 @@
 """C01 — file content fidelity."""
 from props import histprop
 PID = "C01"
-MIX = [("file", {}), ("extbound", {}), ("file", {"nops": 60}), ("overappend", {}), ("extbound", {}), ("file", {"nfiles": 1, "nops": 30}), ("full", {}), ("overappend", {}), ("openchain", {}), ("eofseek", {}), ("ofsappend", {})]
+MIX = [("file", {}), ("extbound", {}), ("file", {"nops": 60}), ("overappend", {}), ("extbound", {}), ("file", {"nfiles": 1, "nops": 30}), ("full", {}), ("overappend", {}), ("openchain", {}), ("eofseek", {}), ("ofsappend", {}), ("truncseek", {})]
 RULE = ("seeded histories of open/read/write/seek/trunc/flush/close over 1-3 files and up to 4 handles, lengths drawn around "
         "{0,1,487..489,511..513} and {1,2,71,72,73,143,144,145} x block size, all flavours, DD/HD floppies, with prior fragmentation, "
         "read back through fresh handles and after remount; a case is distinct by (length, flavour, first 8 operations)")
